@@ -81,6 +81,8 @@ def V(vid):
         'sky1': lambda: SkyCoord(10 * u.deg, 20 * u.deg, frame='icrs'),
         'skygal': lambda: SkyCoord(120 * u.deg, -5 * u.deg, frame='galactic'),
         'skyfk5': lambda: SkyCoord(1 * u.deg, 2 * u.deg, frame='fk5'),
+        'icrsframe': lambda: __import__('astropy.coordinates', fromlist=['ICRS']).ICRS(10 * u.deg, 20 * u.deg),      # a frame object with data, not a SkyCoord
+        'galframe': lambda: __import__('astropy.coordinates', fromlist=['Galactic']).Galactic(120 * u.deg, -5 * u.deg),
         'skyarr2': lambda: SkyCoord([10, 11] * u.deg, [20, 21] * u.deg),
         'skyarr1': lambda: SkyCoord([10] * u.deg, [20] * u.deg),
         'sky2d': lambda: SkyCoord([[10, 11], [12, 13]] * u.deg, [[20, 21], [22, 23]] * u.deg),
@@ -117,7 +119,7 @@ KINDS = {
     'pixcenter': (['pix12', 'pixf', 'pix00'],
                   ['pixarr2', 'pixarr1', 'pix2d', 'sky1', 'tup12', 'none', 'strx', 'arr1d'], []),
     'skycenter': (['sky1', 'skygal', 'skyfk5'],
-                  ['skyarr2', 'skyarr1', 'sky2d', 'pix12', 'tup12', 'none', 'strx'], []),
+                  ['skyarr2', 'skyarr1', 'sky2d', 'pix12', 'tup12', 'none', 'strx', 'icrsframe', 'galframe'], []),
     'pixverts': (['pixv3', 'pixv4', 'pixv5'], ['pix12', 'pix2d', 'skyv3', 'none', 'listpairs', 'arr1d'], []),
     'skyverts': (['skyv3', 'skyv4'], ['sky1', 'sky2d', 'pixv3', 'none', 'listpairs'], []),
     'angle': (['q30deg', 'q1rad', 'a45', 'q0deg', 'qm10am'],
